@@ -307,7 +307,13 @@ impl Report {
         // split violations into known findings and real ones
         let mut known_hits: BTreeMap<String, (String, u64, String)> = BTreeMap::new();
         let mut real: Vec<&Violation> = Vec::new();
+        let mut machinery = self.machinery.clone();
         for v in &self.tally.violations {
+            // disagreements between reference models are machinery errors, never verdicts
+            if v.class.starts_with("MACHINERY") {
+                machinery.push(format!("{}: {} / case {}", v.class, v.what, v.case));
+                continue;
+            }
             let rec = known
                 .iter()
                 .find(|k| k.status == "known" && k.property == self.property && !v.class.is_empty() && k.id == v.class);
@@ -373,6 +379,7 @@ impl Report {
             coverage["traces_validated_against_impl"] = json!(self.tally.evals);
         }
         let real_count = if real.is_empty() { 0 } else { self.tally.violation_count.max(real.len() as u64) };
+        let real_count = real_count.min(self.tally.violation_count);
         let evidence = json!({
             "property_id": self.property,
             "tier": self.tier.name(),
@@ -382,7 +389,7 @@ impl Report {
             "assumptions": self.assumptions,
             "wall_s": (wall * 1000.0).round() / 1000.0,
             "violations": real_count,
-            "machinery_errors": self.machinery,
+            "machinery_errors": machinery,
         });
         let ev_dir = root.join("evidence");
         let _ = std::fs::create_dir_all(&ev_dir);
@@ -408,8 +415,8 @@ impl Report {
         for l in &lines {
             println!("{l}");
         }
-        if !self.machinery.is_empty() {
-            for m in &self.machinery {
+        if !machinery.is_empty() {
+            for m in &machinery {
                 eprintln!("MACHINERY: {m}");
             }
             if lines.is_empty() {
